@@ -255,10 +255,64 @@ def run_late_iter(c):
     return out
 
 
+def run_exit_block(c):
+    """a `with Parallel(..., return_as=generator...)` block is left while its output generator is only partly consumed and
+    tasks are still running on a backend that cannot recall them (concurrent.futures style); the completions that arrive
+    AFTER the block was left must not take further items from the input; afterwards the object is usable again."""
+    import warnings
+    release = threading.Event()
+    taken = []
+    STATE.update(at=None, main=threading.get_ident())
+
+    def held(i):
+        if i >= 1:
+            release.wait(5)
+        return i
+
+    def inputs():
+        for i in range(40):
+            taken.append(i)
+            yield delayed(held)(i)
+    out = {"calls": []}
+    with warnings.catch_warnings():
+        warnings.simplefilter("ignore")
+        with Parallel(n_jobs=2, backend=CFBackend(), pre_dispatch=c.get("pre", 2), batch_size=1, return_as=c["return_as"]) as p:
+            g = p(inputs())
+            out["first"] = next(g)
+            # the callback of task 0 may still be dispatching: let it finish (every other task is held)
+            n = -1
+            while n != len(taken):
+                n = len(taken)
+                time.sleep(0.15)
+            out["taken_at_exit"] = len(taken)
+        release.set()
+        time.sleep(0.5)
+        out["taken_late"] = len(taken)
+        # what the abandoned generator does afterwards is recorded, not judged (and must not stop the probe)
+        def rest():
+            try:
+                out["rest"] = list(g)
+            except BaseException as e:  # noqa
+                out["rest_raised"] = type(e).__name__
+        tr = threading.Thread(target=rest, daemon=True)
+        tr.start()
+        tr.join(3)
+        out["rest_hangs"] = tr.is_alive()
+        out["taken_end"] = len(taken)
+    call = {"values": None, "raised": None}
+    try:
+        call["values"] = list(Parallel(n_jobs=2, backend=CFBackend(), return_as="list")(delayed(task)(i, False) for i in range(4)))
+    except BaseException as e:  # noqa
+        call["raised"] = [type(e).__name__, [a if isinstance(a, (int, str)) else repr(a) for a in e.args]]
+    out["calls"].append(call)
+    return out
+
+
 def run_case(c):
-    if c.get("kind") == "late_iter":
+    if c.get("kind") in ("late_iter", "exit_block"):
         res = {}
-        t = threading.Thread(target=lambda: res.update(run_late_iter(c)), daemon=True)
+        fn = run_late_iter if c["kind"] == "late_iter" else run_exit_block
+        t = threading.Thread(target=lambda: res.update(fn(c)), daemon=True)
         t.start()
         t.join(c.get("watchdog", 30))
         if t.is_alive():
